@@ -7,6 +7,32 @@ import realtrig
 from irsym import Exec
 
 LEVEL = 'proof'
+CLAIM = ("translate, rotate/rotate_slow, scale/scale_slow, shear/shear_slow (ext/matrix_transform), the gtx/transform builders, rotateNormalizedAxis (matrix and quaternion), gtx/transform2 (shearX2D/Y2D, "
+         "shearX3D/Y3D/Z3D, reflect2D/3D, proj2D/3D, scaleBias), gtx/matrix_transform_2d (translate, rotate, scale, shearX, shearY), gtx/rotate_vector (rotate vec2/vec3/vec4, rotateX/Y/Z for vec3 "
+         "and vec4, orientation), lookAt/lookAtRH/lookAtLH, gtx/matrix_interpolation (axisAngleMatrix, extractMatrixRotation, axisAngle, interpolate) and gtx/matrix_decompose (decompose, recompose) "
+         "are executed symbolically from their clang IR in rounding-erased real arithmetic (sin/cos/acos Ackermannised with true identities only). The solver shows for all inputs: every "
+         "M-transforming function returns M times the elementary matrix it names (translation, Rodrigues rotation about the normalised axis, diagonal scale, the documented shear matrix); the "
+         "helpers agree with them; lookAtRH/LH are proper rigid transforms (R R^T = I, det R = 1, last row 0 0 0 1) taking eye to the origin, center to (0,0,-/+|center-eye|), up into x = 0, y > 0; "
+         "lookAt is bit-for-bit (IEEE terms, all inputs) the variant selected under each of the four clip-control configurations; orientation(N,Up) is the Rodrigues rotation by acos(N.Up) about "
+         "Up x N (and, by the code-free lemmas, a proper rotation taking Up to N); axisAngle inverts axisAngleMatrix on rotations outside its epsilon band, on exact half turns and on the identity; "
+         "interpolate(m1, m2, 0) == m1; decompose succeeds and returns components whose composition P*T*R(q)*K*S equals M / M[3][3], and recompose(decompose(M)) == M / M[3][3], for the families of "
+         "composed matrices listed in BOUNDS (simplification chains whose every rewrite is a discharged solver lemma).")
+BOUNDS = ("rounding-erased semantics; float and double instantiations (recompose: float only, see KF-C09-recompose-double-not-instantiable); all base matrices M, vectors, angles (any number of turns: "
+          "sin/cos are unconstrained beyond sin^2+cos^2 = 1), axes != 0 (unit axes where the function documents that), eye != center, up not parallel to the view direction; configurations {}, "
+          "GLM_FORCE_LEFT_HANDED, GLM_FORCE_DEPTH_ZERO_TO_ONE, both. decompose/recompose: M = P(p) * T(t) * [B * R_axis(angle)] * K(skew) * diag(s) with symbolic t, angle, s (each sign pattern, "
+          "|s_x s_y s_z| >= epsilon), skew, B one of the fixed rational rotations I, X90, Y90, X180, Y180, P = [[2,-1,2],[2,2,-1],[-1,2,2]]/3 and axis x, y or z (quick: 6 families incl. two with a "
+          "perspective row (0,0,c,w); thorough: all 144 sign/base/axis families with skew, optional full perspective rows and the double instantiation); all four quaternion-extraction branches are "
+          "reached across the families; axisAngle: R = Rodrigues(c,s,n) with some |2 s n_k| >= 100 epsilon (thorough), exact half turns (thorough, optional), identity")
+OUTSIDE = ("size of floating-point rounding errors; decompose on general (two- and three-parameter) rotations with a symbolic base rotation - the nonlinear solver does not finish (tried: unit-quaternion, "
+           "Cayley and row parametrisations, per-entry splitting, nra/qfnra) - and on matrices not of the composed form; decompose's behaviour inside its epsilon bands (|det| < epsilon, perspective "
+           "entries below epsilon are dropped); recompose(decompose(M)) reproduces M only up to the homogeneous factor M[3][3] (decompose normalises by it): identical matrices iff M[3][3] == 1; "
+           "interpolate for 0 < delta <= 1 (delta = 1 attempted as optional in thorough) and the domain obligations of interpolate's inner axisAngle for arbitrary m1, m2; gtx rotate_vector slerp; "
+           "scaleBias(m, s, b) (built on the uninitialised scaleBias(s, b), KF-C09-scaleBias-uninitialised); the shear helpers of gtx/transform2 (3-D) and gtx/matrix_transform_2d are shown to be "
+           "the TRANSPOSE of the elementary shear they name (known findings), the documented column-vector reading is re-proved only for the zero shear factor")
+ASSUMPTIONS = ['rounding-erased semantics: every float operation is exact; sqrt is the non-negative real root; sin/cos/acos are real variables constrained only by identities true of the real functions (engine/realtrig.py)',
+               'dispatch: libm sqrt/inversesqrt are the same function on both sides (terms are syntactically identical)',
+               'simplification chains (decompose): each rewrite (sqrt variable == closed form, cancellation of a non-zero factor, polynomial reduction modulo c^2+s^2 = 1, constant If-conditions, '
+               'bit-vector index atoms == real comparisons) is justified by a solver lemma recorded as an obligation; dropping hypotheses that do not mention a goal\'s variables only weakens them']
 FT = {'f32': 'float', 'f64': 'double'}
 INC = ['glm/glm.hpp', 'glm/ext/matrix_transform.hpp', 'glm/gtc/matrix_transform.hpp', 'glm/gtc/quaternion.hpp', 'glm/gtx/transform.hpp', 'glm/gtx/transform2.hpp',
        'glm/gtx/rotate_vector.hpp', 'glm/gtx/rotate_normalized_axis.hpp', 'glm/gtx/matrix_transform_2d.hpp', 'glm/gtx/matrix_decompose.hpp', 'glm/gtx/matrix_interpolation.hpp']
@@ -488,7 +514,7 @@ def job_axisangle(t):
             return [('angle==pi', REq(rv(o[1][0]), T.pi))] + [('axis_%d*axis_%d==n_%d*n_%d' % (a, b, a, b), REq(ax[a] * ax[b], n[a] * n[b])) for a in range(3) for b in range(a, 3)]
         n2 = [x * x for x in n]
         for nm, cond in () if S.quick else (('x', z3.And(n2[0] > n2[1], n2[0] > n2[2])), ('y', z3.And(z3.Not(z3.And(n2[0] > n2[1], n2[0] > n2[2])), n2[1] > n2[2])), ('z', z3.And(z3.Not(z3.And(n2[0] > n2[1], n2[0] > n2[2])), z3.Not(n2[1] > n2[2])))):
-            chk(S, U, 'axisAngle0_' + t, spech, lambda i, cond=cond: [norm2(n) == 1, cond], ins=[Hin], name='c09.axisAngle_%s.halfturn.%s' % (t, nm), solver='z3', timeout=300, mandatory=False,
+            chk(S, U, 'axisAngle0_' + t, spech, lambda i, cond=cond: [norm2(n) == 1, cond], ins=[Hin], name='c09.axisAngle_%s.halfturn.%s' % (t, nm), solver='z3', timeout=25, mandatory=False,
                 bounds='R = 2 n n^T - I, |n| = 1: angle pi, axis = +-n; largest diagonal entry: ' + nm)
         Iin = flat([[ONE if r == k else (tr[r] if (k == 3 and r < 3) else ZERO) for k in range(4)] for r in range(4)])
         chk(S, U, 'axisAngle_' + t, lambda i, o, T: [('angle==0', REq(rv(o[1][0]), ZERO))] + vec_goals('axis==(1,0,0)', o[0], [ONE, ZERO, ZERO]) + mat_goals('axisAngleMatrix==I', M4of(o[2]), ident(4)), None, ins=[Iin],
@@ -508,7 +534,7 @@ def job_interpolate(t):
         generic = z3.Or(*[absr(2 * s_ * n[k]) >= eps for k in range(3)])
         for sg, cond in (('s>0', s_ > 0), ('s<0', s_ < 0)):
             chk(S, U, 'interpolate_' + t, lambda i, o, T: mat_goals('interpolate(m1,m2,1)==m2', M4of(o[0]), M4of(i[1])), lambda i, cond=cond: [c * c + s_ * s_ == 1, norm2(n) == 1, generic, cond], ins=[T1, M2, [ONE]], mandatory=False,
-                name='c09.interpolate_%s.delta1.%s' % (t, sg), solver='z3', timeout=120, bounds='delta = 1: m1 = translation, m2 = translation * Rodrigues(c,s,n) outside the near-symmetrical band; ' + sg)
+                name='c09.interpolate_%s.delta1.%s' % (t, sg), solver='z3', timeout=15, bounds='delta = 1: m1 = translation, m2 = translation * Rodrigues(c,s,n) outside the near-symmetrical band; ' + sg)
     return run
 
 # ------------------------------------------------------------------------------------------------ solver-justified simplification chains (decompose)
@@ -763,12 +789,28 @@ def job_decompose(t, base, axis, signs, skew, persp=0, pform='full', mandatory=T
             C.equate('scale%d' % k, ex.sqrt_log[k][1], C.g['sqrt-args'][k], sc[k] * sc[k], signs[k] * sc[k])
             C.cancel(); C.reduce(s_, 1 - c * c)
         C.bvfree(); C.conds(); C.reduce(s_, 1 - c * c)
-        S.prove(name + '.ok', C.g['ok'][0] == 1, pre + select_axioms(C.ax, [C.g['ok'][0]]), timeout=S.cap(40, 120), solver='nra', kind='spec', functions=['w_' + fn], bounds=bounds, mandatory=mandatory)
+        S.prove(name + '.ok', C.g['ok'][0] == 1, pre + select_axioms(C.ax, [C.g['ok'][0]]), timeout=S.cap(40, 120), solver='nra', kind='spec', functions=['w_' + fn], bounds=bounds, mandatory=mandatory, replay=lambda mdl: replay(mdl))
         # the orthonormal rows the quaternion is extracted from: column k of B*R up to the sign of s_k, all negated when the determinant is negative; case split over the extraction branches
         flip = -1 if signs[0] * signs[1] * signs[2] < 0 else 1
         Rp = [[signs[k] * flip * R[r][k] for k in range(3)] for r in range(3)]; d = [Rp[k][k] for k in range(3)]; trc = d[0] + d[1] + d[2]
         cases = [('trace>0', [trc > 0]), ('i=0', [trc <= 0, z3.Not(d[1] > d[0]), z3.Not(d[2] > d[0])]), ('i=1', [trc <= 0, d[1] > d[0], z3.Not(d[2] > d[1])]),
                  ('i=2', [trc <= 0, z3.Or(z3.And(d[1] > d[0], d[2] > d[1]), z3.And(z3.Not(d[1] > d[0]), d[2] > d[0]))])]
+        invars = [c, s_] + sc + tr + (kk or []) + ([m] + [x for x in pp if not is_num(x)] if persp else [])
+        def replay(mdl):
+            """native run on the model's parameters: the components must compose, and recompose must rebuild, M / M[3][3] within a tolerance"""
+            sub = [(v, z3.RealVal(str(z3val_to_fraction(mdl.eval(v, model_completion=True))))) for v in invars]
+            vals = [float(z3val_to_fraction(z3.simplify(z3.substitute(x, *sub)))) for x in Mf]; w_ = 32 if t == 'f32' else 64
+            nat = Un.call_native(fn, [[float_to_bits(v, w_) for v in vals]])
+            fl = lambda row: [bits_to_float(b, w_) for b in row]
+            cp = fl(nat[1]); info = {'unit': Un.name, 'fn': fn, 'inputs': [[hex(float_to_bits(v, w_)) for v in vals]], 'property': 'C09', 'native_ok': nat[0][0], 'components': cp}
+            if nat[0][0] != 1: return 'reproduced', info
+            mm = vals[15]; tol = 2e-3 if t == 'f32' else 1e-6; R_ = [z3.RealVal(repr(x)) for x in cp]
+            Wn = trs_matrix(qrotmat(R_[3:7]), R_[0:3], R_[7:10], R_[10:13], R_[13:17]); got = [float(z3val_to_fraction(z3.simplify(x))) for x in flat(Wn)]
+            outs = [('compose', got)] + ([('recompose', fl(nat[2]))] if len(nat) > 2 else [])
+            for lab_, g_ in outs:
+                for k_ in range(16):
+                    if not (abs(g_[k_] * mm - vals[k_]) <= tol * max(1.0, abs(vals[k_]), abs(mm))): info['mismatch'] = [lab_, k_, g_[k_] * mm, vals[k_]]; return 'reproduced', info
+            return 'not-reproduced', info
         S.prove(name + '.cases-exhaustive', z3.Or(*[z3.And(*cd) for _, cd in cases]), [], timeout=20, solver='z3', kind='lemma', functions=['(case split)'])
         for cn, cond in cases:
             r0, _, _, _ = S.query(pre + cond, 5, 'nra')
@@ -780,7 +822,7 @@ def job_decompose(t, base, axis, signs, skew, persp=0, pform='full', mandatory=T
             goals = [('compose(decompose(M))[r%dc%d]' % (r, k), W[r][k] * m == M[r][k]) for r in range(4) for k in range(4)]
             if 'rec' in D.g: goals += [('recompose(decompose(M))[%d]' % k, D.g['rec'][k] * m == Mf[k]) for k in range(16)]
             for lab, g in goals:
-                S.prove('%s.%s.%s' % (name, cn, lab), g, hy(g), timeout=S.cap(40, 120), solver='nra', kind='spec', functions=['w_' + fn], bounds=bounds + '; extraction branch ' + cn, mandatory=mandatory)
+                S.prove('%s.%s.%s' % (name, cn, lab), g, hy(g), timeout=S.cap(40, 120), solver='nra', kind='spec', functions=['w_' + fn], bounds=bounds + '; extraction branch ' + cn, mandatory=mandatory, replay=replay)
     return run
 
 SIGNS = [(a, b, c) for a in (1, -1) for b in (1, -1) for c in (1, -1)]
